@@ -321,7 +321,83 @@ func runMemScenario1(sc *memScenario) (memResult, string) {
 		}
 	}
 	runtime.KeepAlive(sub)
+	if over == "" {
+		over = bigValuePhase(sc.kind)
+	}
 	return res, over
+}
+
+// bigVals: values of 64 KiB, so that a handful of entries that outlive their deletion is
+// measurable (retention per deleted *entry* is otherwise lost in the noise of small values).
+var bigVals = ValCodec[[]byte]{Name: "bytes64k",
+	To: func(id int) []byte {
+		b := make([]byte, 64<<10)
+		b[0], b[1], b[2], b[3] = byte(id), byte(id>>8), byte(id>>16), byte(id>>24)
+		return b
+	},
+	Back: func(b []byte) int { return int(b[0]) | int(b[1])<<8 | int(b[2])<<16 | int(b[3])<<24 }}
+
+// bigValuePhase: up to 512 entries with 64 KiB values are inserted, then all but every 64th (in
+// insertion order) are deleted: what the tree keeps alive must be in proportion to the survivors,
+// not to what was deleted around them; then the survivors go too and (almost) nothing may remain.
+func bigValuePhase(kind Kind) string {
+	base := liveHeap()
+	sub := NewSubject(kind, bigVals)
+	seen := map[string]bool{}
+	var keys [][]byte
+	for i := 0; len(keys) < 512 && i < 4096; i++ {
+		k := kind.Canon(freshKey(kind, 20000000+i))
+		if id := kind.Ident(k); !seen[id] {
+			seen[id] = true
+			keys = append(keys, k)
+		}
+	}
+	for i, k := range keys {
+		safeDo(func() { sub.Insert(k, i) })
+	}
+	survivors := 0
+	for i, k := range keys {
+		if i%64 == 17 {
+			survivors++
+			continue
+		}
+		safeDo(func() { sub.Delete(k) })
+	}
+	if sub.Size() != survivors {
+		return "" // not this property's business
+	}
+	const val = 64 << 10
+	msg := ""
+	for attempt := 0; attempt < 3; attempt++ {
+		if kept := liveHeap() - base; kept > int64(2*survivors*val+(1<<20)) {
+			msg = fmt.Sprintf("%d entries with 64 KiB values were inserted and all but %d deleted again: the tree keeps %d KiB alive (the survivors account for %d KiB)", len(keys), survivors, kept>>10, survivors*val>>10)
+			continue
+		}
+		msg = ""
+		break
+	}
+	if msg != "" {
+		runtime.KeepAlive(sub)
+		return msg
+	}
+	for i, k := range keys {
+		if i%64 == 17 {
+			safeDo(func() { sub.Delete(k) })
+		}
+	}
+	if sub.Size() != 0 {
+		return ""
+	}
+	for attempt := 0; attempt < 3; attempt++ {
+		if kept := liveHeap() - base; kept > 256<<10 {
+			msg = fmt.Sprintf("after %d entries with 64 KiB values were inserted and all deleted again the emptied tree keeps %d KiB alive", len(keys), kept>>10)
+			continue
+		}
+		msg = ""
+		break
+	}
+	runtime.KeepAlive(sub)
+	return msg
 }
 
 func memTrace(sc *memScenario, msg string) *Trace {
